@@ -288,21 +288,8 @@ class Judge:
             return 'length-in-utf16-units'
         if D.involves_variety(t, 'union') and 'enumeration' in deep_facet_kinds(t) and self.alt(t, s, 'UNION_ENUM_ANY_MEMBER').v == want:
             return 'enum-matched-through-other-member'
-        if D.involves(t, ('hexBinary', 'base64Binary')) and 'enumeration' in deep_facet_kinds(t) and not lib_ok and code == '216':
-            lits = set()
-
-            def walk(x):
-                for a in x.chain():
-                    for fn, fv in a.facets:
-                        if fn == 'enumeration':
-                            lits.add(fv)
-                if x.item is not None:
-                    walk(x.item)
-                for m in x.members:
-                    walk(m)
-            walk(t)
-            if not any(tok in lits for tok in s.split(' ')) and s not in lits:
-                return 'binary-enumeration-compared-lexically'
+        if D.involves(t, ('hexBinary', 'base64Binary')) and self.alt(t, s, 'BINARY_AS_STRING').v == want:
+            return 'binary-enumeration-compared-lexically'
         return cls
 
     def violation(self, key, what, c, idx, extra=(), expected=None, observed=None):
@@ -352,8 +339,15 @@ class Judge:
                     if c.meta.get('expect_type_error') == o['name']:
                         F.count('type-error-as-expected')
                     else:
-                        self.violation('C09:type-rejected:%s:%s' % (tkey(t), l[2].replace('X:', '')), 'the factory refused a derivation the generator built to be consistent', c, idx,
-                                       expected='created', observed=l[2])
+                        code = l[2].split(':')[-1]
+                        lits = [fv for fn, fv in t.facets if fn == 'enumeration']
+                        if code == '216' and D.involves(t, ('hexBinary', 'base64Binary')):
+                            key = 'C09:type-rejected:%s:binary-enumeration-compared-lexically:216' % t.variety
+                        elif code in ('213', '214', '215') and any(ord(ch) > 0xFFFF for x in lits for ch in x):
+                            key = 'C09:type-rejected:%s:length-in-utf16-units:%s' % (t.variety, code)
+                        else:
+                            key = 'C09:type-rejected:%s:%s' % (tkey(t), l[2].replace('X:', ''))
+                        self.violation(key, 'the factory refused a derivation the generator built to be consistent', c, idx, expected='created', observed=l[2])
                 elif c.meta.get('expect_type_error') == o['name']:
                     self.violation('C09:type-accepted:%s:%s' % (tkey(t), c.meta.get('why', '')), 'an inconsistent facet set was accepted by the factory', c, idx, expected='facet error', observed='created')
             elif k == 'v':
@@ -411,6 +405,11 @@ class Judge:
         vstep[(t.name, s)] = idx
         tk = tkey(t)
         cls = lit_class(t, s)
+        if t.variety != 'atomic' and D.involves(t, _DT_NAMES):
+            if re.search(r'(^| )-[0-9]{4}', s):
+                cls = 'neg-year'
+            elif re.search(r'T24:|(^| )24:', s):
+                cls = 'hour24'
         mv = self.E.evaluate(t, s)
         self.mres[(t.name, s)] = mv
         F.count('route1:' + (t.builtin_ancestor().name if t.variety == 'atomic' else t.variety))
@@ -452,6 +451,11 @@ class Judge:
             if xl is not None and len(xl) > 2 and xl[2] != 'NOTYPE':
                 self.judge_xsvalue(c, idx, t, s, mv, lib_ok, cv, xl, tk, cls)
             return
+        if mv.v == REJECT or (mv.v == SKIP and mv.why == 'float:huge-exponent'):
+            # the literal itself is already reported (or outside the modelled range): what the library then does with it is not judged
+            if xl is not None and len(xl) > 2 and xl[2] != 'NOTYPE':
+                self.judge_xsvalue(c, idx, t, s, mv, lib_ok, cv, xl, tk, cls)
+            return
         F.axioms += 1
         if kv.get('self') != '0':
             self.violation('C09:axiom:compare-self:%s:%s' % (tk, cls), 'compare(x,x) is not EQUAL', c, idx, expected='0', observed=kv.get('self'))
@@ -480,7 +484,11 @@ class Judge:
             lexical_facets = bool(all_facets & {'pattern', 'length', 'minLength', 'maxLength', 'whiteSpace'})
             if kv.get('vc') != 'OK' and not lexical_facets and not grey:
                 self.violation('C09:axiom:canon-invalid:%s:%s' % (tk, cls), 'the canonical form of a valid literal does not validate', c, idx, expected='canon validates', observed=[cv, kv.get('vc')])
-            if kv.get('vc') == 'OK' and not grey and not (lexical_facets and t.variety == 'union'):
+            if D.involves_variety(t, 'union'):
+                # 2.5.1.3: the canonical literal of a union value is the canonical literal of the member type; read back, it may
+                # be claimed by an earlier member ('01' as int -> '1' -> boolean): XSD 1.0 does not resolve this
+                F.skip('union:canonical-literal-member-ambiguity')
+            elif kv.get('vc') == 'OK' and not grey:
                 if kv.get('cmp') != '0' or kv.get('cmpr') != '0':
                     self.violation('C09:axiom:canon-changes-value:%s:%s' % (tk, cls), 'compare(x, canon(x)) is not EQUAL', c, idx, expected='0/0', observed=[cv, kv.get('cmp'), kv.get('cmpr')])
                 if kv.get('cc') != cv:
